@@ -20,9 +20,12 @@
    * `unvisit` (object model -> parse tree) and `meaning` of both trees.
 
    Variant parameters (BUILDING.md "Defects of the unchanged code"): the
-   record `cfg` says, per operator class, whether the visitor passes NOT
-   through (`true`, repaired) or hard-codes negated=False / reads the
-   operator token at the wrong child index (`false`, the pinned tree).     *)
+   record `cfg` has one flag per deviation of the tree as found (`pinned`,
+   all false) that a proposed fix repairs (`repaired`, all true): NOT passed
+   through per operator class, WITHIN <float>, positional printing of floats,
+   quoting of path keys, h'', root_types on append, 'k'[*].  Every function
+   whose behaviour depends on a flag takes the record as first argument; the
+   check selects the flags by running a witness per flag on the real code.   *)
 
 From Coq Require Import NArith ZArith List String Ascii Bool Decimal DecimalN DecimalZ.
 From V Require Export Base.UString.
